@@ -289,4 +289,14 @@ def run(F, rep):
     from engines import rule_loop_state
     rule_loop_state(F, rep, 'C08.S1', lambda g: g.file.endswith('/units.cpp'), 'units.cpp')
 
+    # ------------------------------------------------------------------ clauses shared with C03: where the analyser applies the factor (C08: "the analyser and generator scale by Units::scalingFactor")
+    if not getattr(rep, 'nested', False):
+        import core
+        import c03
+        c03.run(F, core.Borrowed(rep, only={'C03.S1', 'C03.S2', 'C03.S3'}))
+
+    # ------------------------------------------------------------------ every element of a collection is handled
+    from engines import rule_visit_all
+    rule_visit_all(F, rep, 'C08.Y1', lambda g: g.file.endswith(('/validator.cpp', '/units.cpp')), 20, 'validator.cpp and units.cpp (units of connected variables)')
+
 
